@@ -2,11 +2,11 @@ module verif
 
 go 1.22
 
-require github.com/robertkrimen/otto v0.0.0
-
 require (
-	golang.org/x/text v0.4.0 // indirect
-	gopkg.in/sourcemap.v1 v1.0.5 // indirect
+	github.com/robertkrimen/otto v0.0.0
+	golang.org/x/text v0.4.0
 )
+
+require gopkg.in/sourcemap.v1 v1.0.5 // indirect
 
 replace github.com/robertkrimen/otto => /repo
